@@ -276,6 +276,8 @@ class Env(object):
             return v.inside(self.path(e["p"], o, loops))
         if t == "ps":
             f = self.path(e["p"], o, loops)
+            if "bit_f" in e:
+                return f[self.path(e["bit_f"], o, loops)]
             if e["hi"] == e["lo"] and e.get("bit"):
                 return f[e["hi"]]
             return f[e["hi"]:e["lo"]]
